@@ -61,10 +61,10 @@ theorem getD_append_new (l : List Ctx) (v d : Ctx) : (l ++ [v]).getD l.length d 
 
 /-- the state `EntryContext.Reset` leaves behind (and `ctxPool.New` creates), as far as `api.entry` relies on it -/
 def isReset (c : Ctx) : Prop :=
-  c.err = none ∧ c.hasNode = false ∧ c.blocked = false ∧ c.e.args = [] ∧ c.exited = false
+  c.err = none ∧ c.hasNode = false ∧ c.blocked = false ∧ c.e.args = [] ∧ c.e.atts = [] ∧ c.exited = false
 
-theorem isReset_fresh : isReset freshCtx := ⟨rfl, rfl, rfl, rfl, rfl⟩
-theorem isReset_reset (c : Ctx) (h : c.exited = false) : isReset (resetCtx c) := ⟨rfl, rfl, rfl, rfl, h⟩
+theorem isReset_fresh : isReset freshCtx := ⟨rfl, rfl, rfl, rfl, rfl, rfl⟩
+theorem isReset_reset (c : Ctx) (h : c.exited = false) : isReset (resetCtx c) := ⟨rfl, rfl, rfl, rfl, rfl, h⟩
 
 structure Rel (p : PSt) (s : St) : Prop where
   inb : p.inb = s.inb
@@ -338,12 +338,16 @@ theorem chainEntry_keeps_ents (fix : Bool) (s : St) (c : Ctx) (t : Nat) : (chain
 
 /-- what `api.entry` builds from a reset object is what the pool-free model starts from -/
 theorem ctx0_eq (pc : Ctx) (h : isReset pc) (e : EntryOp) (t : Nat) :
-    ({ pc with e := { e with args := if e.args.isEmpty then pc.e.args else e.args }, start := t } : Ctx) =
+    ({ pc with e := inputOf e pc, start := t } : Ctx) =
       { e := e, start := t, err := none, hasNode := false, blocked := false, exited := false } := by
-  obtain ⟨h1, h2, h3, h4, h5⟩ := h
+  obtain ⟨h1, h2, h3, h4, h4', h5⟩ := h
   have ha : (if e.args.isEmpty then pc.e.args else e.args) = e.args := by
     rw [h4]; cases he : e.args <;> simp
-  rw [ha, h1, h2, h3, h5]
+  have hb : (if e.atts.isEmpty then pc.e.atts else e.atts) = e.atts := by
+    rw [h4']; cases he : e.atts <;> simp
+  have hi : inputOf e pc = e := by
+    unfold inputOf; simp only [ha, hb]
+  rw [hi, h1, h2, h3, h5]
 
 theorem poolGet_ents (p : PSt) (pick : Nat) : (poolGet p pick).2.ents = p.ents := by
   unfold poolGet; cases p.free[pick]? <;> rfl
